@@ -268,6 +268,10 @@ func runC06(ctx *h.Ctx) int {
 			func() *spec.TextVal { return text("", "a", "bc") }, func() *spec.TextVal { return text("ascii", "abc") }, func() *spec.TextVal { return text("ascii", `abc\0`) },
 			func() *spec.TextVal { return text("braille", "abc") }, func() *spec.TextVal { return text("custom", "abc") }, func() *spec.TextVal { return text("custom", "abc$") },
 			func() *spec.TextVal { return text("", "abc$$") }, func() *spec.TextVal { return text("", "") }, func() *spec.TextVal { return text("", "$") },
+			// content that starts with the name of a string type (keys built by concatenation collide)
+			func() *spec.TextVal { return text("", "brailleabc") }, func() *spec.TextVal { return text("", "customabc") }, func() *spec.TextVal { return text("", "customabc$") },
+			func() *spec.TextVal { return text("", "asciiabc") }, func() *spec.TextVal { return text("custom", "") }, func() *spec.TextVal { return text("", "custom") },
+			func() *spec.TextVal { return text("braille", "a", "bc") }, func() *spec.TextVal { return text("", "abc ") }, func() *spec.TextVal { return text("", " abc") },
 		}
 		ns := 1 + r.IntN(3)
 		for i := 0; i < ns; i++ {
